@@ -9,7 +9,7 @@ func propSpecs() map[string]*PropSpec {
 	add := func(p *PropSpec) { m[p.ID] = p }
 	seeds := func(h string, n int64) []RunSpec {
 		var r []RunSpec
-		for i := int64(0); i < 20; i++ {
+		for i := int64(0); i < 21; i++ {
 			r = append(r, rs(h, i, n))
 		}
 		return r
@@ -104,7 +104,7 @@ func propSpecs() map[string]*PropSpec {
 		Quick:    append(tokRuns("H_C08", 6, 0), seeds("H_C08seed", 1)...),
 		Thorough: append(append(tokRuns("H_C08", 7, 0), seeds("H_C08seed", 1)...), seeds("H_C08seed", 2)...),
 		Covers:   []string{"accepted", "rejected"},
-		Bounds: map[string]string{"quick": "all token sequences of length <= 6 over the full 78-lexeme vocabulary (error lexemes included); 20 seed programs of 6-30 tokens with one arbitrary corruption (delete / insert arbitrary token / replace by arbitrary token / duplicate / transpose / truncate at an arbitrary position)",
+		Bounds: map[string]string{"quick": "all token sequences of length <= 6 over the full 78-lexeme vocabulary (error lexemes included); 21 seed programs of 6-32 tokens with one arbitrary corruption (delete / insert arbitrary token / replace by arbitrary token / duplicate / transpose / truncate at an arbitrary position)",
 			"thorough": "all token sequences of length <= 7; seeds with one and two corruptions"},
 		Outside: []string{"longer uncorrupted token soups", "lexeme-internal corruption (C09 covers the lexer)"},
 		Stubs:   []string{tokStub},
@@ -114,7 +114,7 @@ func propSpecs() map[string]*PropSpec {
 		Quick:    append(append(append(tokRuns("H_C10", 5, 0), seeds("H_C10seed", 1)...), tokRuns("H_C10err", 4, 0)...), append(seeds("H_C10errseed", 1), rs("H_C10tab", 0), rs("H_C10tab", 1), rs("H_C10tab", 2), rs("H_C10tab", 3), rs("H_C10tab", 4))...),
 		Thorough: append(append(append(append(tokRuns("H_C10", 6, 0), seeds("H_C10seed", 1)...), seeds("H_C10seed", 2)...), tokRuns("H_C10err", 5, 0)...), append(seeds("H_C10errseed", 2), rs("H_C10tab", 0), rs("H_C10tab", 1), rs("H_C10tab", 2), rs("H_C10tab", 3), rs("H_C10tab", 4))...),
 		Covers:   []string{"accepted", "rejected", "spans-checked", "partial-tree", "position-checked", "compile-error-message"},
-		Bounds: map[string]string{"quick": "success part: all accepted token sequences of length <= 5 over the full vocabulary and 20 seed programs with one arbitrary corruption; failure part: all rejected token sequences of length <= 4 and the rejected corruptions of the seeds: every span of the partial tree (fields and Span() of every node) and every line:column prefix of the parse and compile error messages; 5 failing programs with two gaps of 2 arbitrary bytes over {space, tab, newline} (tab stops)",
+		Bounds: map[string]string{"quick": "success part: all accepted token sequences of length <= 5 over the full vocabulary and 21 seed programs with one arbitrary corruption; failure part: all rejected token sequences of length <= 4 and the rejected corruptions of the seeds: every span of the partial tree (fields and Span() of every node) and every line:column prefix of the parse and compile error messages; 5 failing programs with two gaps of 2 arbitrary bytes over {space, tab, newline} (tab stops)",
 			"thorough": "success <= 6, failure <= 5, seeds with one and two corruptions"},
 		Outside: []string{"multi-byte layout between tokens inside token slots (token spans themselves are C09's subject)", "error messages for byte-level garbage (their texts quote symbolic runes and are opaque to the engine)"},
 		Stubs:   []string{tokStub},
@@ -134,7 +134,7 @@ func propSpecs() map[string]*PropSpec {
 		Quick:    append(append(tokRuns("H_C11", 5, 0), seeds("H_C11seed", 1)...), c11deep(48, 100)...),
 		Thorough: append(append(append(tokRuns("H_C11", 6, 0), seeds("H_C11seed", 1)...), seeds("H_C11seed", 2)...), c11deep(128, 300)...),
 		Covers:   []string{"accepted", "walk-checked", "skip-checked", "history-checked", "deep-walk"},
-		Bounds: map[string]string{"quick": "all accepted token sequences of length <= 5 over the full vocabulary; 20 seed programs with one arbitrary corruption; the skipped node index is arbitrary; after every traversal abandoned by a panicking visitor (at the same arbitrary index) the next traversal visits the same nodes; 14 deep program families at nesting 48 and 7 wide ones (lists of 100 arguments / values / conditions / columns / operators) with two arbitrary tokens inside",
+		Bounds: map[string]string{"quick": "all accepted token sequences of length <= 5 over the full vocabulary; 21 seed programs with one arbitrary corruption; the skipped node index is arbitrary; after every traversal abandoned by a panicking visitor (at the same arbitrary index) the next traversal visits the same nodes; 14 deep program families at nesting 48 and 7 wide ones (lists of 100 arguments / values / conditions / columns / operators) with two arbitrary tokens inside",
 			"thorough": "length <= 6; seeds with one and two corruptions"},
 		Outside: []string{"trees deeper or wider than the listed families produce"},
 		Stubs:   []string{tokStub},
@@ -151,7 +151,7 @@ func propSpecs() map[string]*PropSpec {
 			}
 		}
 		for c := int64(0); c <= nCorrupt; c++ {
-			for i := int64(0); i < 36; i++ {
+			for i := int64(0); i < 37; i++ {
 				r = append(r, rs("H_C07seed", i, c))
 			}
 		}
@@ -165,7 +165,7 @@ func propSpecs() map[string]*PropSpec {
 		Quick:    c07(5, 3, 1, 8),
 		Thorough: c07(6, 5, 2, 20),
 		Covers:   []string{"in-grammar", "not-in-grammar", "layout-checked", "synonyms"},
-		Bounds: map[string]string{"quick": "all token sequences of length <= 5 (78 lexemes) the reference grammar derives; operator ladders with <= 3 arbitrary binary operators over 6 operand decorations (sign, call, index, parentheses, in-list); 36 seed programs plain and with one arbitrary corruption; layout: one arbitrary gap of 3 bytes over {space tab newline / NBSP} in 8 seed programs, with and without keyword synonyms",
+		Bounds: map[string]string{"quick": "all token sequences of length <= 5 (78 lexemes) the reference grammar derives; operator ladders with <= 3 arbitrary binary operators over 6 operand decorations (sign, call, index, parentheses, in-list); 37 seed programs plain and with one arbitrary corruption; layout: one arbitrary gap of 3 bytes over {space tab newline / NBSP} in 8 seed programs, with and without keyword synonyms",
 			"thorough": "length <= 6; ladders <= 5 operators; two corruptions; layout on all 20 seeds"},
 		Outside: []string{"programs longer/deeper than the bounds", "constructs deliberately not in the reference grammar (no claim either way): chained indexing a[1][2], a comma before summarize's by", "more than one non-canonical gap at a time"},
 		Stubs:   []string{tokStub, "layout family uses the real lexer (nothing stubbed)"},
@@ -173,12 +173,15 @@ func propSpecs() map[string]*PropSpec {
 	c05 := func(maxK, nCorrupt int64) []RunSpec {
 		r := tokRuns("H_C05", maxK, 5)
 		for c := int64(0); c <= nCorrupt; c++ {
-			for i := int64(0); i < 28; i++ {
+			for i := int64(0); i < 37; i++ {
 				r = append(r, rs("H_C05seed", i, c))
 			}
 		}
 		for i := int64(0); i < 8; i++ {
 			r = append(r, rs("H_C05names", i))
+		}
+		for k := int64(0); k < 5; k++ {
+			r = append(r, RunSpec{Harness: "H_C05chain", Args: []int64{k, 26}, Budget: 20000000})
 		}
 		return r
 	}
@@ -186,8 +189,8 @@ func propSpecs() map[string]*PropSpec {
 		ID: "C05", Title: "successful output is exactly one well-formed SQL statement",
 		Quick:    c05(5, 1),
 		Thorough: c05(6, 2),
-		Covers:   []string{"compiled", "compile-error", "with-ctes"},
-		Bounds: map[string]string{"quick": "all compiling token sequences of length <= 5 over a 64-lexeme vocabulary (every operator word, generated subquery names as identifiers); 36 seed programs plain and with one arbitrary corruption; 6 name-collision shapes with arbitrary tokens in the name slots",
+		Covers:   []string{"compiled", "compile-error", "with-ctes", "chain-checked"},
+		Bounds: map[string]string{"quick": "all compiling token sequences of length <= 5 over a 64-lexeme vocabulary (every operator word, generated subquery names as identifiers); 37 seed programs plain and with one arbitrary corruption; 8 name-collision shapes with arbitrary tokens in the name slots; a user-chosen name spelled like a generated one (5 spellings) followed by 0..26 further subqueries",
 			"thorough": "length <= 6; two corruptions"},
 		Outside: []string{"SQL validity beyond the statement grammar (types, unknown columns)", "pass-through function names that are SQL keywords (passed through by name by contract)", "two subqueries the user gave the same name with as"},
 		Stubs:   []string{tokStub},
@@ -237,8 +240,11 @@ func propSpecs() map[string]*PropSpec {
 		for sh := int64(49); sh < 54; sh++ {
 			r = append(r, rs("H_C01", sh, 10))
 		}
-		for sh := int64(54); sh < 66; sh++ {
+		for sh := int64(54); sh < 70; sh++ {
 			r = append(r, rs("H_C01", sh, 0))
+		}
+		for _, pos := range []int64{1, 3, 6, 10, 11} {
+			r = append(r, rs("H_C01", 66, pos), rs("H_C01", 68, pos))
 		}
 		for _, sh := range []int64{54, 55, 59, 64} {
 			for _, pos := range []int64{1, 6, 7, 9, 10, 11} {
@@ -260,7 +266,7 @@ func propSpecs() map[string]*PropSpec {
 		Quick:    c01(false),
 		Thorough: c01(true),
 		Covers:   []string{"compiled", "meaning-checked", "null-free-checked"},
-		Bounds: map[string]string{"quick": "61 expression shapes (+5 join-condition shapes with one-sided and same-sided comparisons, also under not) (repeated parentheses and signs around signed, indexed, in and not operands; ladders of <= 3 binary operators, every parenthesis placement, signs, indexing, in-lists, each built-in as operand and with operator arguments, pass-through calls of arity 0-3, qualified names, constants) with every binary operator slot arbitrary over the 15 operators, in the where position; 13 of the shapes in all 12 expression positions (project, extend named/unnamed, summarize aggregate and key, sort, take, top key and count, join on, let)",
+		Bounds: map[string]string{"quick": "65 expression shapes (conditionals with constant branches and nested conditionals; +5 join-condition shapes with one-sided and same-sided comparisons, also under not) (repeated parentheses and signs around signed, indexed, in and not operands; ladders of <= 3 binary operators, every parenthesis placement, signs, indexing, in-lists, each built-in as operand and with operator arguments, pass-through calls of arity 0-3, qualified names, constants) with every binary operator slot arbitrary over the 15 operators, in the where position; 13 of the shapes in all 12 expression positions (project, extend named/unnamed, summarize aggregate and key, sort, take, top key and count, join on, let)",
 			"thorough": "all 49 shapes in all 12 positions"},
 		Outside: []string{"expression trees deeper than the shapes", "the real ClickHouse evaluator: grouping is read with its operator priorities as transcribed in harness/h/sqlparse.go, operators are uninterpreted functions (so the verdict holds for every data type), coalesce / IS NULL / CASE are interpreted"},
 		Stubs:   []string{tokStub},
@@ -268,7 +274,7 @@ func propSpecs() map[string]*PropSpec {
 	})
 	c06 := func() []RunSpec {
 		var r []RunSpec
-		for i := int64(0); i < 22; i++ {
+		for i := int64(0); i < 23; i++ {
 			r = append(r, rs("H_C06", i))
 		}
 		for i := int64(0); i < 7; i++ {
@@ -281,7 +287,7 @@ func propSpecs() map[string]*PropSpec {
 		Quick:    c06(),
 		Thorough: c06(),
 		Covers:   []string{"compiled", "meaning-checked", "suffix-checked", "breaks-rule"},
-		Bounds: map[string]string{"quick": "22 use sites (operand of each operator class, under a sign, index base and index, in-list item, call argument, row counts, sort key, join conditions, quoted / qualified / function-name / table-name / alias contexts, built-in constant and function names) x 16 let prefixes (chains of up to three lets, shadowing, parenthesised signed values, signed and compound values, parameter in a let value) x 3 suffixes (lets after the query) x 4 parameter maps (colliding with a let name, a column, built-in constants, $left); 7 shapes with every binary operator around and inside the binding arbitrary",
+		Bounds: map[string]string{"quick": "23 use sites (quoted columns named like the built-in constants; operand of each operator class, under a sign, index base and index, in-list item, call argument, row counts, sort key, join conditions, quoted / qualified / function-name / table-name / alias contexts, built-in constant and function names) x 16 let prefixes (chains of up to three lets, shadowing, parenthesised signed values, signed and compound values, parameter in a let value) x 3 suffixes (lets after the query) x 4 parameter maps (colliding with a let name, a column, built-in constants, $left); 7 shapes with every binary operator around and inside the binding arbitrary",
 			"thorough": "same as quick"},
 		Outside: []string{"parameter texts that are not a single SQL operand (inserted verbatim by contract)", "a bare join key that is also a binding name (the two documented rules conflict)", "more than three lets before the query"},
 		Stubs:   []string{tokStub + " (operator shapes only; the use-site family runs the real lexer on concrete programs)"},
@@ -313,6 +319,9 @@ func propSpecs() map[string]*PropSpec {
 		for j := int64(0); j < 14; j++ {
 			r = append(r, RunSpec{Harness: "H_C14hist", Args: []int64{j}, Budget: 4000000, CrossObs: true})
 		}
+		for k := int64(0); k < 4; k++ {
+			r = append(r, RunSpec{Harness: "H_C14perm", Args: []int64{k}, Budget: 4000000})
+		}
 		if !full {
 			// the same program on both threads exercises every lazily initialised path twice at once
 			for i := int64(0); i < 8; i++ {
@@ -331,8 +340,8 @@ func propSpecs() map[string]*PropSpec {
 		ID: "C14", Title: "compilation is a pure, deterministic, thread-safe function", Threads: true, OwnsPanic: true,
 		Quick:    c14(false),
 		Thorough: c14(true),
-		Covers:   []string{"history-checked", "schedules-checked", "call-history-checked"},
-		Bounds: map[string]string{"quick": "7 pairs from 8 programs (successes, failures with sorted-key and position texts, a failed call with an unterminated escaped literal followed by a call with an escaped literal): call histories i,j,i,j; the result of each of 14 programs (also ones whose names meet the generated subquery names) in a process that compiled nothing before equals its result after any one other of them (every path starts from the initial process state; confirmed in fresh native processes); nil/zero/empty options; every iteration order of every map iterated (symbolic permutation); two concurrent Compile calls sharing their options, first use in the process (cold) and warm, every interleaving at the granularity of visible operations (sync operations and accesses to shared locations written by any explored execution); concurrent Parse/Scan",
+		Covers:   []string{"history-checked", "schedules-checked", "call-history-checked", "permutations-checked"},
+		Bounds: map[string]string{"quick": "7 pairs from 8 programs (successes, failures with sorted-key and position texts, a failed call with an unterminated escaped literal followed by a call with an escaped literal): call histories i,j,i,j; the result of each of 14 programs (also ones whose names meet the generated subquery names) in a process that compiled nothing before equals its result after any one other of them (every path starts from the initial process state; confirmed in fresh native processes); an empty caller map stays empty and a later call does not see an earlier call's lets; nil/zero/empty options; 4 programs whose reserved-name and parameter maps have several entries under every iteration order; every iteration order of every map iterated (symbolic permutation); two concurrent Compile calls sharing their options, first use in the process (cold) and warm, every interleaving at the granularity of visible operations (sync operations and accesses to shared locations written by any explored execution); concurrent Parse/Scan",
 			"thorough": "all 64 pairs from 8 programs"},
 		Outside: []string{"more than two goroutines (follows from pairwise race-freedom; stated, not checked)", "the Go runtime's own scheduler and map implementation", "interleavings finer than visible operations (operations on thread-local or never-written data commute)"},
 		Stubs:   []string{"sync.Once / sync.Mutex: engine models with happens-before clocks", "map iteration order: symbolic permutation"},
@@ -363,7 +372,7 @@ func propSpecs() map[string]*PropSpec {
 	})
 	seeds13 := func(n int64) []RunSpec {
 		var r []RunSpec
-		for i := int64(0); i < 36; i++ {
+		for i := int64(0); i < 37; i++ {
 			r = append(r, rs("H_C13seed", i, n))
 		}
 		return r
@@ -373,7 +382,7 @@ func propSpecs() map[string]*PropSpec {
 		Quick:    append(append([]RunSpec{rs("H_C13a", 1, 0), rs("H_C13a", 2, 0), rs("H_C13a", 3, 5)}, tokRuns("H_C13b", 5, 0)...), seeds13(1)...),
 		Thorough: append(append(append([]RunSpec{rs("H_C13a", 1, 0), rs("H_C13a", 2, 0), rs("H_C13a", 3, 0), rs("H_C13a", 5, 5)}, tokRuns("H_C13b", 6, 0)...), seeds13(1)...), seeds13(2)...),
 		Covers:   []string{"accepted", "rejected", "breaks-rule", "keeps-rules", "compiled", "compile-error"},
-		Bounds: map[string]string{"quick": "either/or: all byte strings of length <= 2, <= 3 focused, 6 parameter maps; exactly-when: all token sequences of length <= 5 over the full vocabulary and 36 seed programs (calls, joins, lets at depth; nested built-ins with siblings; a query followed by further statements; expression constructs in every operator's argument positions) with one arbitrary corruption",
+		Bounds: map[string]string{"quick": "either/or: all byte strings of length <= 2, <= 3 focused, 6 parameter maps; exactly-when: all token sequences of length <= 5 over the full vocabulary and 37 seed programs (calls, joins, lets at depth; nested built-ins with siblings; a query followed by further statements; expression constructs in every operator's argument positions) with one arbitrary corruption",
 			"thorough": "bytes <= 3 (<= 5 focused); token sequences <= 6; seeds with one and two corruptions"},
 		Outside: []string{"render property values (not an expression position of the rule list)", "parameter maps in the exactly-when part (covered by C06)", "programs beyond the bounds"},
 		Stubs:   []string{tokStub},
